@@ -1,6 +1,7 @@
 """Rules over the seven RRULE fillers of evrrul.c (shared by C01, C09, C16, C17)."""
 from ..facts import strip_casts, lv, show, walk, writes, is_int, int_value, strip, calls
 from ..flow import MustFacts, rel_facts
+from ..q import call_sites
 from ..snapshot import AnalysisBroken
 
 FILLER_FILE = "evrrul.c"
@@ -434,3 +435,49 @@ def r09_6(prog, rep, rid="R09.6"):
                         rep.fail(rid, key, f.loc(nn.get("line", line)), "1 << %s with %s up to %d in a %d-bit type: undefined shift" % (amt["n"], amt["n"], v, nn["w"]))
     if n < 8:
         rep.broken_("rule=%s expected >=8 mask shifts fed by container values, found %d" % (rid, n))
+
+
+def r09_7(prog, rep, rid="R09.7"):
+    """A day-of-year that was produced by adding a rule-supplied offset to a base day is range-checked on the upper side before it is handed
+    to yd_to_md(), whose 14-entry remainder table is indexed by (doy + 19) / 32 and (doy + 19) / 32 + 1 (doy <= 396 at most)."""
+    from ..flow import MustFacts
+    n = 0
+    for f in prog.fns_in("evrrul.c"):
+        if not f.cfg:
+            continue
+        sites = call_sites(f, "yd_to_md")
+        if not sites:
+            continue
+        cfg = f.cfg
+        mf = None
+        for S in sites:
+            v = strip_casts(cfg.resolve(S.node["a"][1]))
+            if v.get("k") != "ref":
+                continue
+            name = v["n"]
+            summed = False
+            for b, i, x, line in cfg.all_elems():
+                for l, kind, nn in writes(cfg.resolve(x)):
+                    if lv(l) != name:
+                        continue
+                    if nn.get("k") == "bin" and nn["op"] in ("+=", "-="):
+                        summed = True
+                    rhs = nn.get("init") if kind == "decl" else (nn.get("r") if nn.get("k") == "bin" and nn["op"] == "=" else None)
+                    if rhs is not None and strip_casts(rhs).get("k") == "bin" and strip_casts(rhs)["op"] in ("+", "-"):
+                        summed = True
+            if not summed:
+                continue
+            n += 1
+            if mf is None:
+                mf = MustFacts(cfg)
+            facts = mf.at(S.b, S.i) or set()
+            key = "%s/yd_to_md(%s)" % (f.name, name)
+            ub = [fx for fx in facts if fx[0] in ("le", "lt") and fx[1] == name and fx[2].lstrip("-").isdigit()]
+            if ub and min(int(fx[2]) - (1 if fx[0] == "lt" else 0) for fx in ub) <= 396:
+                rep.ok(rid, key, f.loc(S.line), "%s is bounded above (%s) on every path to the table lookup" % (name, ", ".join("%s %s" % (fx[0], fx[2]) for fx in ub)))
+            else:
+                rep.fail(rid, key, f.loc(S.line),
+                         "%s is the sum of a base day and a rule-supplied offset but reaches yd_to_md() without an upper bound: for offsets that leave "
+                         "the year the remainder table (14 entries) is indexed out of bounds and a month beyond 12 is put into the candidate set" % name)
+    if n < 1:
+        rep.broken_("rule=%s expected >=1 offset day-of-year handed to yd_to_md, found %d" % (rid, n))
